@@ -10,6 +10,10 @@ import (
 	"fmt"
 	"math/big"
 	"math/bits"
+	"os"
+	"path/filepath"
+	"regexp"
+	"strconv"
 	"strings"
 
 	"github.com/tuneinsight/lattigo/v6/ring"
@@ -485,6 +489,38 @@ func c02Div(c *Ctx, po bool, N int, ringQ *ring.Ring, ch c02Chain) {
 	}
 }
 
+// c02DocK is the k of "returned values are in [0, kP-1]" in the doc comment of ring.ModUpExact (read from the
+// source under test; 2 if the comment cannot be parsed).
+var c02DocK = func() int64 {
+	b, err := os.ReadFile(filepath.Join(repoPath(), "ring/basis_extension.go"))
+	if err == nil {
+		if m := regexp.MustCompile(`returned values are in \[0, (\d+)P-1\]`).FindSubmatch(b); m != nil {
+			k, _ := strconv.ParseInt(string(m[1]), 10, 64)
+			return k
+		}
+	}
+	return 2
+}()
+
+// c02ModUpBound: the documented upper bound of a ModUpExact output limb for target modulus p.
+func c02ModUpBound(src []uint64, p uint64) *big.Int {
+	var qmax uint64
+	for _, q := range src {
+		if q > qmax {
+			qmax = q
+		}
+	}
+	if len(src) <= 8 && bits.Len64(qmax) <= 61 {
+		b := new(big.Int).Mul(big.NewInt(c02DocK), c02BigU(p))
+		return b.Sub(b, big.NewInt(1))
+	}
+	// (2 + n·max(Qi)/2^64)·P
+	b := new(big.Int).Mul(big.NewInt(int64(len(src))), c02BigU(qmax))
+	b.Mul(b, c02BigU(p))
+	b.Rsh(b, 64)
+	return b.Add(b, new(big.Int).Mul(big.NewInt(2), c02BigU(p)))
+}
+
 // ---- BasisExtender ------------------------------------------------------------------------------
 
 func c02BasisExt(c *Ctx, po bool, N int, ringQ, ringP *ring.Ring, ch c02Chain) {
@@ -541,16 +577,18 @@ func c02BasisExt(c *Ctx, po bool, N int, ringQ, ringP *ring.Ring, ch c02Chain) {
 							c.Emit("modupexact "+line, Mat(rawRows))
 						}
 						c.Count("modupexact")
-						// the doc comment of ModUpExact: "returned values are in [0, 2P-1]"
+						// the doc comment of ModUpExact: "returned values are in [0, kP-1]" (k read from the source;
+						// stated for at most 8 source moduli of at most 61 bits), else (2 + n·max(Qi)/2^64)·P
 						dd := ""
 						for i, p := range dst {
+							bound := c02ModUpBound(src, p)
 							for j, v := range rawRows[i] {
-								if v > 2*p-1 {
-									dd = fmt.Sprintf("row %d coeff %d: %d > 2p-1 = %d", i, j, v, 2*p-1)
+								if c02BigU(v).Cmp(bound) > 0 {
+									dd = fmt.Sprintf("row %d coeff %d: %d > documented bound %s", i, j, v, bound)
 								}
 							}
 						}
-						c.Probe("modupexact_documented_range", line, "C02/ModUpExact/output-exceeds-documented-2P-1", dd)
+						c.Probe("modupexact_documented_range", line, "C02/ModUpExact/output-exceeds-documented-range", dd)
 					}
 				}
 				// ---- ModDown
